@@ -258,6 +258,15 @@ func (p *Proxy) handleLoop(conn net.Conn) {
 		return
 	}
 
+	// A MITM'd tunnel on a traffic shaped listener is served through a second
+	// traffic shaped connection (see handleConnectRequest); close it too, so
+	// that the buckets created for it are released.
+	defer func() {
+		if tsconn, ok := s.currentConn().(*trafficshape.Conn); ok && net.Conn(tsconn) != conn {
+			tsconn.Close()
+		}
+	}()
+
 	for {
 		deadline := time.Now().Add(p.timeout)
 		conn.SetDeadline(deadline)
